@@ -60,6 +60,8 @@ def events(seed, npts):
     # as well as arrays" - an altitude of 5 km is in the domain however it is spelled (binary32 inputs are judged at the double they hold)
     for j, zi in enumerate((0, 5, 11, 20, 47, 86, 119)):
         for form, arg in (("int", int(zi)), ("np.int64", np.int64(zi)), ("int array", np.array([zi, zi], dtype=np.int64)),
+                          ("uint8 array", np.array([zi, zi], dtype=np.uint8)), ("np.uint32", np.uint32(zi)), ("int32 array", np.array([zi, zi], dtype=np.int32)),
+                          ("2-D array", np.array([[float(zi), zi + 0.5]])), ("Fortran 2-D", np.asfortranarray(np.array([[float(zi), zi + 0.5], [zi + 0.25, zi + 0.75]]))),
                           ("float32", np.float32(zi + 0.25)), ("float32 array", np.array([zi + 0.25, zi + 0.5], dtype=np.float32)),
                           ("list", [float(zi), zi + 0.5])):
             zval = float(np.asarray(arg, dtype=float).reshape(-1)[0])
@@ -75,6 +77,9 @@ def events(seed, npts):
                        "_m": {"z": zval, "P": pa, "form": form, "error": err}})
     for j, Pi in enumerate((101325, 50000, 22632, 5474, 868, 110, 66, 3, 1)):
         for form, arg in (("int", int(Pi)), ("np.int64", np.int64(Pi)), ("int array", np.array([Pi, Pi], dtype=np.int64)),
+                          ("uint32 array", np.array([Pi, Pi], dtype=np.uint32)), ("np.uint64", np.uint64(Pi)),
+                          ("uint16 array", np.array([min(Pi, 65535)] * 2, dtype=np.uint16)), ("int32 array", np.array([Pi, Pi], dtype=np.int32)),
+                          ("float16->float32", np.float32(np.float16(min(Pi, 60000)))), ("2-D array", np.array([[float(Pi), float(Pi)]])),
                           ("float32", np.float32(Pi)), ("list", [float(Pi), float(Pi)])):
             Pval = float(np.asarray(arg, dtype=float).reshape(-1)[0])
             try:
